@@ -8,6 +8,7 @@ import (
 	"hash/fnv"
 	"math/rand/v2"
 	"os"
+	"path/filepath"
 	"runtime"
 	"sort"
 	"strings"
@@ -64,6 +65,7 @@ type ChunkResult struct {
 	ReplayHash    string            `json:"replayHash,omitempty"`
 	RunHashes     []string          `json:"runHashes,omitempty"`
 	HarnessErrors []string          `json:"harnessErrors,omitempty"`
+	Notes         []string          `json:"notes,omitempty"`
 }
 
 func h64(s string) uint64 {
@@ -317,7 +319,7 @@ func workerMain(t *testing.T) {
 		fmt.Fprintf(os.Stderr, "@%d\n", i)
 		sc := GenScenario(p, spec.Tier, spec.Seed, i)
 		dump := os.Getenv("VERIF_DUMPLOGS")
-		out := execute(t, sc, i%detEvery == 0 || dump != "")
+		out := execute(t, sc, true) // the event log of every run is kept until the run is judged (diagnosis of a violation that does not reproduce)
 		if dump != "" && out.W != nil {
 			os.MkdirAll(dump, 0o755)
 			os.WriteFile(fmt.Sprintf("%s/%d-%d.log", dump, os.Getpid(), i), []byte(strings.Join(out.W.Log.Lines, "\n")+"\n"), 0o644)
@@ -398,6 +400,16 @@ func workerMain(t *testing.T) {
 					continue
 				}
 				seen[vkey(v)] = true
+				// one seed is one execution: a violation that the same scenario does not show again is not
+				// a finding about the code under test that anybody could replay, it is trouble in the
+				// harness (something outside the simulator's control decided the run). Both event logs
+				// are kept for diagnosis.
+				if sc.Mode != "free" && !reproduces(t, p, sc, v, 3) {
+					res.Stats["violation-not-reproducible"]++
+					dumpNonRepro(t, spec, sc, v, out)
+					res.Notes = append(res.Notes, fmt.Sprintf("index %d: rule %s fired once and not again in 3 re-executions of the same scenario (event logs kept in .work/nonrepro-%s-%d.json): %s", i, v.Rule, p.ID(), i, v.Detail))
+					continue
+				}
 				fv := reportViolation(t, p, sc, v, spec)
 				res.Violations = append(res.Violations, fv)
 			}
@@ -417,6 +429,34 @@ func workerMain(t *testing.T) {
 func vkey(v props.Violation) string {
 	b, _ := json.Marshal(v.Facts)
 	return v.Rule + string(b)
+}
+
+// reproduces re-executes the scenario and reports whether the same rule family fires again.
+func reproduces(t *testing.T, p props.Property, sc *sim.Scenario, v props.Violation, tries int) bool {
+	for k := 0; k < tries; k++ {
+		out := execute(t, sc.Clone(), false)
+		for _, v2 := range p.Check(out, &props.RunInfo{}) {
+			if ruleFamily(v2.Rule) == ruleFamily(v.Rule) {
+				return true
+			}
+		}
+	}
+	return false
+}
+
+func dumpNonRepro(t *testing.T, spec WorkerSpec, sc *sim.Scenario, v props.Violation, failing *sim.Outcome) {
+	again := execute(t, sc.Clone(), true)
+	d := map[string]any{"rule": v.Rule, "detail": v.Detail, "scenario": sc}
+	if failing != nil && failing.W != nil {
+		d["failing_log"] = failing.W.Log.Lines
+		d["failing_stats"] = failing.W.Stats
+	}
+	if again != nil && again.W != nil {
+		d["passing_log"] = again.W.Log.Lines
+	}
+	b, _ := json.MarshalIndent(d, "", " ")
+	dir := filepath.Dir(filepath.Dir(spec.Out))
+	os.WriteFile(filepath.Join(dir, fmt.Sprintf("nonrepro-%s-%d.json", sc.Property, sc.Index)), b, 0o644)
 }
 
 // reportViolation minimises the scenario (same rule must keep failing) and writes the replay file.
